@@ -1,8 +1,9 @@
 (* C01 property theorems.  Nothing but statements closed by `exact`, each followed by Print Assumptions.
-   Every statement is a conjunction with one clause per overload body of Model.v:
-   "for all big-integer operands and all word operands in the C type's range, the body = the Z operation". *)
+   Every statement is a conjunction with one clause per overload body of Model*.v:
+   "for all big-integer operands and all word operands in the C type's range, the body = the Z operation".
+   The statements themselves are the Definitions `..._exact` in the Proofs*.v files. *)
 From Coq Require Import ZArith.
-From C01 Require Import Model ProofsBase ProofsAdd ProofsSub ProofsMul.
+From C01 Require Import Model Model2 Model3 ProofsBase ProofsAdd ProofsSub ProofsMul ProofsCmp ProofsBits ProofsGcd ProofsPow.
 Local Open Scope Z_scope.
 
 Theorem C01_constructors_exact : Ctor_exact.            Proof. exact ctor_exact. Qed.
@@ -23,3 +24,47 @@ Theorem C01_multiplication_overloads_agree : Mul_family_agree. Proof. exact mul_
 Print Assumptions C01_multiplication_overloads_agree.
 Theorem C01_fused_forms_exact : Fused_exact.             Proof. exact fused_exact. Qed.
 Print Assumptions C01_fused_forms_exact.
+Theorem C01_compare_absCompare_sign_exact : Compare_exact.  Proof. exact compare_exact. Qed.
+Print Assumptions C01_compare_absCompare_sign_exact.
+Theorem C01_operator_ne_every_overload_exact : OpNe_exact.  Proof. exact opne_exact. Qed.
+Print Assumptions C01_operator_ne_every_overload_exact.
+Theorem C01_operator_eq_every_overload_exact : OpEq_exact.  Proof. exact opeq_exact. Qed.
+Print Assumptions C01_operator_eq_every_overload_exact.
+Theorem C01_operator_gt_every_overload_exact : OpGt_exact.  Proof. exact opgt_exact. Qed.
+Print Assumptions C01_operator_gt_every_overload_exact.
+Theorem C01_operator_lt_every_overload_exact : OpLt_exact.  Proof. exact oplt_exact. Qed.
+Print Assumptions C01_operator_lt_every_overload_exact.
+Theorem C01_operator_ge_every_overload_exact : OpGe_exact.  Proof. exact opge_exact. Qed.
+Print Assumptions C01_operator_ge_every_overload_exact.
+Theorem C01_operator_le_every_overload_exact : OpLe_exact.  Proof. exact ople_exact. Qed.
+Print Assumptions C01_operator_le_every_overload_exact.
+Theorem C01_zero_one_sign_tests_exact : Tests_exact.     Proof. exact tests_exact. Qed.
+Print Assumptions C01_zero_one_sign_tests_exact.
+Theorem C01_shifts_exact : Shift_exact.                  Proof. exact shift_exact. Qed.
+Print Assumptions C01_shifts_exact.
+Theorem C01_bit_logic_every_overload_exact : Bitlogic_exact.  Proof. exact bitlogic_exact. Qed.
+Print Assumptions C01_bit_logic_every_overload_exact.
+Theorem C01_native_conversions_exact : Casts_exact.      Proof. exact casts_exact. Qed.
+Print Assumptions C01_native_conversions_exact.
+Theorem C01_size_queries_exact : Size_exact.             Proof. exact size_exact. Qed.
+Print Assumptions C01_size_queries_exact.
+Theorem C01_pow_every_overload_exact : Pow_exact.        Proof. exact pow_exact. Qed.
+Print Assumptions C01_pow_every_overload_exact.
+Theorem C01_powmod_every_overload_exact : Powmod_exact.  Proof. exact powmod_exact. Qed.
+Print Assumptions C01_powmod_every_overload_exact.
+Theorem C01_gcd_lcm_bezout_exact : Gcd_exact.            Proof. exact gcd_exact. Qed.
+Print Assumptions C01_gcd_lcm_bezout_exact.
+Theorem C01_modular_inverse_exact : Inv_exact.           Proof. exact inv_exact. Qed.
+Print Assumptions C01_modular_inverse_exact.
+Theorem C01_roots_exact : Roots_exact.                   Proof. exact roots_exact. Qed.
+Print Assumptions C01_roots_exact.
+(* the bodies as they were before the repairs frag/C01.fix-2/3/4.diff do NOT satisfy their clause (witnesses) *)
+Theorem C01_absCompare_i32_before_fix2_refuted :
+  exists a b, in_i32 b /\ absCompare_i32_tree a b <> Z.sgn (Z.abs a - Z.abs b).   Proof. exact absCompare_i32_tree_refuted. Qed.
+Print Assumptions C01_absCompare_i32_before_fix2_refuted.
+Theorem C01_and_u64_before_fix3_refuted :
+  exists x a, in_u64 a /\ opAnd_u64_tree x a <> Z.land x a.                       Proof. exact opAnd_u64_tree_refuted. Qed.
+Print Assumptions C01_and_u64_before_fix3_refuted.
+Theorem C01_powmod_u64_before_fix4_refuted :
+  exists n e m, m <> 0 /\ in_u64 e /\ powmod_u64_tree n e m <> (n ^ e) mod Z.abs m.  Proof. exact powmod_u64_tree_refuted. Qed.
+Print Assumptions C01_powmod_u64_before_fix4_refuted.
